@@ -40,6 +40,7 @@ def _verify_one(args):
     C = load_all()
     c = C.LEMMAS[idx] if is_lemma else C.all_contracts()[idx]
     tmo = 10000 if tier == 'quick' else 60000
+    os.environ.setdefault('PYVC_CONTRACT_BUDGET_S', '600' if tier == 'quick' else '2400')
     rep = C.verify_contract(c, timeout_ms=tmo)
     obs = []
     for ob in rep.obligations:
@@ -130,7 +131,7 @@ def main():
     ap.add_argument('--setup', action='store_true')
     ap.add_argument('--update-lock', action='store_true')
     a = ap.parse_args()
-    tier = os.environ.get('VERIF_TIER') or a.tier or 'quick'
+    tier = a.tier or os.environ.get('VERIF_TIER') or 'quick'     # an explicit --tier (as in MANIFEST commands) wins
     if tier not in ('quick', 'thorough'):
         tier = 'quick'
     seed = int(os.environ.get('VERIF_SEED', '0') or 0)
